@@ -29,9 +29,11 @@ FAULT_KINDS = {
     'stdout': ['EPIPE'],
     'os_rename': ['EIO', 'EACCES', 'crash_before', 'crash_after'],       # os.rename / os.replace onto or away from a world path
     'os_remove': ['EIO', 'EACCES', 'crash_before', 'crash_after'],       # os.remove / os.unlink
+    'fsync': ['EIO', 'crash'],                                           # os.fsync on a descriptor opened through os.open
+    'os_chmod': ['EACCES', 'crash_before'],                              # os.chmod (shutil.copymode ...) on a world path
 }
 INPUT_SIDE = {'scandir', 'open_r', 'read', 'open_w'}          # nothing of the target has been modified yet
-WRITE_PHASE = {'opened_w', 'write', 'close_w', 'os_rename', 'os_remove'}                # the real open-for-write has happened
+WRITE_PHASE = {'opened_w', 'write', 'close_w', 'os_rename', 'os_remove', 'fsync', 'os_chmod'}                # the real open-for-write has happened
 
 
 class WorldTooHeavy(BaseException):
@@ -568,7 +570,7 @@ class World(object):
         def wrap_mod(name, nargs):
             real = getattr(os, name)
             self._saved['os.' + name] = real
-            fault_cls = {'rename': 'os_rename', 'replace': 'os_rename', 'remove': 'os_remove', 'unlink': 'os_remove'}.get(name)
+            fault_cls = {'rename': 'os_rename', 'replace': 'os_rename', 'remove': 'os_remove', 'unlink': 'os_remove', 'chmod': 'os_chmod'}.get(name)
 
             def wrapper(*a, **k):
                 if os.getpid() != w.pid:
@@ -612,10 +614,62 @@ class World(object):
                 # logged once it has succeeded: a failed O_EXCL probe of an existing name modifies nothing
                 if w.rel(path) is not None:
                     w.modlog('os.open:%d' % flags, path)
+                    if hasattr(w, 'fdmap'):
+                        w.fdmap[fd] = path
                 else:
                     w.outside.append(w.norm(path))
             return fd
         os.open = sim_os_open
+
+        # descriptor-level writes: an implementation that bypasses builtins.open still meets write faults
+        fdmap = {}
+        self.fdmap = fdmap
+        real_os_write, real_os_close, real_os_fsync = os.write, os.close, os.fsync
+        self._saved['os.write'], self._saved['os.close'], self._saved['os.fsync'] = real_os_write, real_os_close, real_os_fsync
+
+        def sim_os_write(fd, data):
+            path = fdmap.get(fd) if os.getpid() == w.pid else None
+            if path is None:
+                return real_os_write(fd, data)
+            f = w.event('write', path, nb=len(data))
+            if f is not None:
+                kind = f['kind']
+                if kind == 'crash_before':
+                    w.crash()
+                if kind.startswith('ENOSPC') or kind.startswith('EIO'):
+                    code, _, how = kind.partition(':')
+                    k = 0 if how == '0' else len(data) // 2
+                    if k:
+                        real_os_write(fd, bytes(data)[:k])
+                    raise OSError(ERRNO[code], os.strerror(ERRNO[code]))
+                if kind == 'crash_after':
+                    real_os_write(fd, data)
+                    w.crash()
+            return real_os_write(fd, data)
+
+        def sim_os_close(fd):
+            path = fdmap.pop(fd, None) if os.getpid() == w.pid else None
+            if path is None:
+                return real_os_close(fd)
+            f = w.event('close_w', path)
+            real_os_close(fd)
+            if f is not None:
+                if f['kind'] == 'crash':
+                    w.crash()
+                raise OSError(errno.EIO, os.strerror(errno.EIO))
+
+        def sim_os_fsync(fd):
+            path = fdmap.get(fd) if os.getpid() == w.pid else None
+            if path is None:
+                return real_os_fsync(fd)
+            f = w.event('fsync', path)
+            if f is not None:
+                if f['kind'] == 'crash':
+                    w.crash()
+                raise OSError(errno.EIO, os.strerror(errno.EIO))
+            return real_os_fsync(fd)
+
+        os.write, os.close, os.fsync = sim_os_write, sim_os_close, sim_os_fsync
 
     def uninstall(self):
         import tempfile
